@@ -661,3 +661,23 @@ Proof. intros Hs Hd Hdry Hc Hsp HP HP'. split; [|apply exit_ok_iff; auto; intros
     { rewrite <- pin_existsb. destruct (existsb (pkeq p) (sp_delete (plan_of src c o))); auto. }
     destruct PD as [PD|PD]; [exact (V1 PD)|]. rewrite (V3 PD NT). exact Hcp.
 Qed.
+
+(** [spelled_from] cannot be dropped: the crashed tree spells the destination-only
+    path `a/b` as `a//b`; the pattern `a/b` (matched against the spelling) protects
+    the first from --delete but not the second.  The crashed tree agrees with
+    [dst] at EVERY path, yet the re-run deletes what the uninterrupted run keeps. *)
+Lemma rerun_spelling_counterexample :
+  let src : tree := [] in
+  let dst := mk_tree [([97;47;98], ([1], 5))] in
+  let c := mk_tree [([97;47;47;98], ([1], 5))] in
+  let o := {| o_delete := true; o_excludes := [[97;47;98]]; o_dry_run := false |} in
+  tsorted src /\ tsorted dst /\ tsorted c /\ crash_state src dst o c /\
+  t_get [97;47;98] (r_dst (run_oneway src dst o (transfer (plan_of src dst o)) (fun _ => false))) = Some {| f_bytes := [1]; f_mtime := 5 |} /\
+  t_get [97;47;98] (r_dst (run_oneway src c o (transfer (plan_of src c o)) (fun _ => false))) = None.
+Proof. cbv zeta. split; [constructor|]. split; [apply mk_tree_sorted|]. split; [apply mk_tree_sorted|].
+  split; [|split; vm_compute; reflexivity].
+  intros p. left. change (mk_tree [([97;47;47;98], ([1], 5))]) with [([97;47;47;98], {| f_bytes := [1]; f_mtime := 5 |})].
+  change (mk_tree [([97;47;98], ([1], 5))]) with [([97;47;98], {| f_bytes := [1]; f_mtime := 5 |})].
+  unfold t_get. cbn [al_get]. unfold keq.
+  assert (E : path_cmp [97;47;47;98] [97;47;98] = Eq) by (vm_compute; reflexivity).
+  now rewrite (cmp_eq_r path_cmp L p _ _ E). Qed.
